@@ -129,6 +129,8 @@ type scenario struct {
 	batches [][]string  // recipient lists, one per concurrent BatchDeliver
 	outs    [][]outcome // outcome per entry, per batch
 	deref   bool        // plus one concurrent Dereference
+	derefs  int         // further concurrent Dereference calls
+	singles []string    // plus concurrent single Deliver calls to these URLs
 	ctxDone bool        // the caller's context is already cancelled when the batch is handed over
 }
 
@@ -154,7 +156,7 @@ func runScenario(sc scenario, x *mc.Exec) (w *world, s *mc.Sched, errs []error, 
 	zzsync.H = hooks{s, x}
 	tp := pub.NewHttpSigTransport(client{w}, "app", clock{}, signer{w, "get"}, signer{w, "post"}, "key", []byte("k"))
 	errs = make([]error, len(sc.batches))
-	rets = make([]bool, len(sc.batches)+1)
+	rets = make([]bool, len(sc.batches)+1+sc.derefs+len(sc.singles))
 	for bi := range sc.batches {
 		bi := bi
 		s.Go(fmt.Sprintf("batch%d", bi), func(t *mc.T) {
@@ -181,6 +183,22 @@ func runScenario(sc scenario, x *mc.Exec) (w *world, s *mc.Sched, errs []error, 
 		})
 	} else {
 		rets[len(sc.batches)] = true
+	}
+	for d := 0; d < sc.derefs; d++ {
+		d := d
+		s.Go(fmt.Sprintf("deref%d", d+2), func(t *mc.T) {
+			pu, _ := url.Parse(fmt.Sprintf("https://r9.example/doc%d", d+2))
+			tp.Dereference(context.Background(), pu)
+			rets[len(sc.batches)+1+d] = true
+		})
+	}
+	for i, u := range sc.singles {
+		i, u := i, u
+		s.Go(fmt.Sprintf("deliver%d", i), func(t *mc.T) {
+			pu, _ := url.Parse(u)
+			tp.Deliver(context.Background(), []byte("payload"), pu)
+			rets[len(sc.batches)+1+sc.derefs+i] = true
+		})
 	}
 	s.Run()
 	return
@@ -231,6 +249,12 @@ func main() {
 		scenario{name: "two batches + dereference", batches: [][]string{{urls[0], urls[1]}, {urls[1]}}, outs: [][]outcome{{outcomes[0], outcomes[3]}, {outcomes[4]}}, deref: true},
 		scenario{name: "two batches signer error", batches: [][]string{{urls[0]}, {urls[1], urls[2]}}, outs: [][]outcome{{outcomes[5]}, {outcomes[0], outcomes[5]}}, deref: false},
 		scenario{name: "batch + dereference", batches: [][]string{{urls[0], urls[1]}}, outs: [][]outcome{{outcomes[5], outcomes[0]}}, deref: true},
+		// calls that share a signer: fetches with fetches, single deliveries with single deliveries and with a batch
+		scenario{name: "two dereferences", deref: true, derefs: 1},
+		scenario{name: "three dereferences", deref: true, derefs: 2},
+		scenario{name: "two single deliveries", singles: []string{urls[0], urls[1]}},
+		scenario{name: "two dereferences + two single deliveries", deref: true, derefs: 1, singles: []string{urls[0], urls[1]}},
+		scenario{name: "batch + single delivery + dereference", batches: [][]string{{urls[0], urls[1]}}, outs: [][]outcome{{outcomes[0], outcomes[0]}}, singles: []string{urls[2]}, deref: true},
 	)
 	bound := 2
 	if thorough {
@@ -257,6 +281,7 @@ func main() {
 		if sc.deref {
 			nThreads++
 		}
+		nThreads += sc.derefs + len(sc.singles)
 		if nThreads >= 5 {
 			b = bound - 1 // many threads: one preemption less
 		}
@@ -299,6 +324,9 @@ func main() {
 				for _, u := range b {
 					want[u]++
 				}
+			}
+			for _, u := range sc.singles {
+				want[u]++
 			}
 			for u, n := range want {
 				if w.attempts[u] != n {
